@@ -11,7 +11,9 @@ EXTENDS Cleartext
 
 SignIfaces == {"detached_binary", "detached_text", "config_binary", "config_text", "hasher_text_chunked",
                "builder_binary", "builder_text", "cleartext_sign", "cleartext_new_many"}
-VerifyIfaces == {"signature_verify", "detached_verify", "message_verify", "cleartext_verify"}
+(* "message_prefix_verify": the signature packet placed in front of a literal packet holding the content (RFC 9580 10.3,     *)
+(* "Signature Packet, OpenPGP Message"), read by the streaming message verifier                                              *)
+VerifyIfaces == {"signature_verify", "detached_verify", "message_verify", "cleartext_verify", "message_prefix_verify"}
 
 IsText(si) == si \in {"detached_text", "config_text", "hasher_text_chunked", "builder_text", "cleartext_sign", "cleartext_new_many"}
 IsCleartext(si) == si \in {"cleartext_sign", "cleartext_new_many"}
@@ -25,7 +27,7 @@ SignHashes(si, s) ==
 (* which verification interfaces apply to the artefact of a signing interface *)
 Applies(si, vi) ==
   CASE si \in {"detached_binary", "detached_text", "config_binary", "config_text", "hasher_text_chunked"}
-         -> vi \in {"signature_verify", "detached_verify"}
+         -> vi \in {"signature_verify", "detached_verify", "message_prefix_verify"}
     [] si \in {"builder_binary", "builder_text"} -> vi \in {"message_verify", "signature_verify"}
     [] IsCleartext(si) -> vi \in {"cleartext_verify", "signature_verify"}
 
